@@ -676,3 +676,67 @@ Example same_run_after_fix :
   exists c, arun 100 true init_cfg (firstn 3 stuck_waiting_run) = Some c /\ settling c = true /\
             exists c', astep 100 true c IRCancelled = Some c'.
 Proof. eexists. split; [vm_compute; reflexivity|]. split; [reflexivity|]. eexists. vm_compute. reflexivity. Qed.
+
+(** ** the socket is closed before finishClosing waits for the read loop
+    [writer_exit]: the write loop's deferred calls run in the order conn.Close(), close(writeLoopDone), finishClosing().
+    Closing the socket is what ends a read loop parked in ReadMessage when the peer neither answers the close frame nor
+    drops the connection ([IReadFail] needs [pending_close], [dropped] or [conn_closed]); [finishClosing] waits for the
+    read loop.  [progress] (hence [quiescent]) uses exactly this: in every reachable configuration in which the write
+    loop has returned, the socket is closed. *)
+Theorem socket_closed_before_finish cap fixed c : reachable cap fixed c -> writer_done c = true -> conn_closed c = true.
+Proof. intros R W. exact (j_conn _ (reachable_inv cap fixed c R) W). Qed.
+
+(** the swapped order (socket closed last, after finishClosing has returned): the same steps, except that the write
+    loop's exit leaves the socket open and finishClosing's completion closes it *)
+Definition set_conn_closed (b : bool) (c : cfg) : cfg :=
+  {| rd := rd c; gs := gs c; wr := wr c; ac := ac c; queue := queue c; closemsg := closemsg c; closing := closing c;
+     close_received := close_received c; pending_close := pending_close c; dropped := dropped c; conn_closed := b;
+     finished := finished c; registered := registered c |}.
+Definition astep_close_last (cap : nat) (c : cfg) (l : alabel) : option cfg :=
+  match astep cap true c l with
+  | Some c' =>
+      Some (match l with
+            | ETickFail | IWTakeFail | IWCloseRecv | IWWaitDone => set_conn_closed (conn_closed c) c'
+            | IWFinish => set_conn_closed true c'
+            | _ => c'
+            end)
+  | None => None
+  end.
+Fixpoint arun_close_last (cap : nat) (c : cfg) (ls : list alabel) : option cfg :=
+  match ls with
+  | [] => Some c
+  | l :: r => match astep_close_last cap c l with Some c' => arun_close_last cap c' r | None => None end
+  end.
+
+(** … and then a peer that stays connected and silent after the server's close frame keeps the connection for ever:
+    terminate is handled (closing begins), the write loop drains, writes the close frame, gives up waiting after 1 s and
+    returns; the read loop is back in ReadMessage on a socket nobody closes; finishClosing waits for it: nobody can
+    move, HandleClose has not run, the connection is still registered *)
+Definition silent_peer_run : list alabel := [EFrame [RBegin]; IRBegin; IRReturn; IWCloseMsg; IWDrainDone; IWWaitDone].
+Theorem quiescent_refuted_when_socket_closed_last :
+  exists c, arun_close_last 100 init_cfg silent_peer_run = Some c /\ settling c = true /\
+            (forall l, internal l = true -> astep_close_last 100 c l = None) /\
+            all_gone c = false /\ finished c = false /\ registered c = true.
+Proof.
+  eexists. split; [vm_compute; reflexivity|]. split; [reflexivity|]. split; [|auto].
+  intros l I. destruct l; try discriminate; try reflexivity; destruct i; reflexivity.
+Qed.
+(** with the real order the same history goes on to the end *)
+Example silent_peer_run_real_order :
+  exists c, arun 100 true init_cfg (silent_peer_run ++ [IReadFail; IWFinish]) = Some c /\ all_gone c = true /\ finished c = true /\
+            registered c = false.
+Proof. eexists. split; [vm_compute; reflexivity|]. auto. Qed.
+
+(** ** sendMessage never gives up while the write loop lives
+    A sender facing a full queue waits until the write loop makes room or has exited: the only failing sends of the
+    model ([IRSendFail], [IGDataFail], [IGCompleteFail]) need [writer_done].  While the connection is served nothing
+    that was handed to sendMessage is dropped (back-pressure, not loss). *)
+Theorem send_fails_only_after_writer_exit cap c l c' :
+  astep cap true c l = Some c' ->
+  (l = IRSendFail \/ exists i, l = IGDataFail i \/ l = IGCompleteFail i) -> writer_done c = true.
+Proof.
+  intros H [->|(i & [->| ->])]; simpl in H; unfold can_give_up in H; simpl in H.
+  - destruct (rd c) as [|[|[] prog]|]; try discriminate; destruct (writer_done c); auto; discriminate.
+  - destruct (writer_done c); [reflexivity|discriminate].
+  - destruct (writer_done c); [reflexivity|discriminate].
+Qed.
